@@ -142,9 +142,11 @@ def check_pair(acc, kind, z, zm, role, Tsign, m, b, E, mm, bm, Em, beta=None, ta
         acc.violation(f'C09/contact/{kind}', 'documented Hertz expression', case, {'got': got, 'ref': sc})
 
 
-def check_wheel(acc, alpha_deg, beta_deg, z, wheel_is_master, Tsign, m, b, d_worm, tag='full'):
+def check_wheel(acc, alpha_deg, beta_deg, z, wheel_is_master, Tsign, m, b, d_worm, tag='full', decoy=None):
+    """decoy: None | 'with' | 'without' -- a SECOND worm gear (other diameter / none) is the wheel's neighbour on the
+    other side through a fixed joint (two-stage worm reducer): the formulas must use the worm the wheel is MATED with."""
     case = {'kind': 'wheel', 'alpha': alpha_deg, 'beta': beta_deg, 'z': z, 'wheel_is_master': wheel_is_master,
-            'Tsign': Tsign, 'm': m, 'b': b, 'd': d_worm}
+            'Tsign': Tsign, 'm': m, 'b': b, 'd': d_worm, 'decoy': decoy}
     try:
         wh = WormWheel(name='wh', n_teeth=z, inertia_moment=J1, helix_angle=Angle(beta_deg, 'deg'),
                        pressure_angle=Angle(alpha_deg, 'deg'), module=L(m), face_width=L(b))
@@ -156,9 +158,19 @@ def check_wheel(acc, alpha_deg, beta_deg, z, wheel_is_master, Tsign, m, b, d_wor
             add_worm_gear_mating(master=wh, slave=wg, friction_coefficient=0.01)
         else:
             add_worm_gear_mating(master=wg, slave=wh, friction_coefficient=0.01)
+        if decoy:
+            from gearpy.utils import add_fixed_joint
+            other = WormGear(name='decoy', n_starts=1, inertia_moment=J1, helix_angle=Angle(3.0, 'deg'),
+                             pressure_angle=Angle(alpha_deg, 'deg'),
+                             reference_diameter=Length(37.0, 'mm') if decoy == 'with' else None)
+            if wheel_is_master:
+                add_fixed_joint(master=other, slave=wh)      # the wheel is driven by another worm's shaft
+            else:
+                add_fixed_joint(master=wh, slave=other)      # the wheel's shaft carries the next stage's worm
     except Exception as ex:
         acc.violation('C09/wheel/build-error', 'worm pair builds', case, {'exc': repr(ex)[:200]})
         return
+    sfx = '/second-worm-as-neighbour' if decoy else ''
     acc.transitions += 1
     exp_pre = (m is not None, m is not None and b is not None)
     if pre != exp_pre:
@@ -166,7 +178,7 @@ def check_wheel(acc, alpha_deg, beta_deg, z, wheel_is_master, Tsign, m, b, d_wor
     flags = (wh.tangential_force_is_computable, wh.bending_stress_is_computable, wg.tangential_force_is_computable)
     exp = (m is not None, m is not None and b is not None and d_worm is not None, d_worm is not None)
     if flags != exp:
-        acc.violation('C09/flags/wheel/mated', 'wheel bending flag also needs the worm\'s reference diameter once mated; worm flag needs its diameter', case,
+        acc.violation('C09/flags/wheel/mated' + sfx, 'wheel bending flag also needs the worm\'s reference diameter once mated; worm flag needs its diameter', case,
                       {'got': flags, 'expected': exp})
         return
     acc.outcomes[('wheel', exp)] += 1
@@ -194,7 +206,7 @@ def check_wheel(acc, alpha_deg, beta_deg, z, wheel_is_master, Tsign, m, b, d_wor
     got = si.q_si(wh.bending_stress)
     side = 'b<0.67d' if mS(b, 'Length') < 0.67 * mS(d_worm, 'Length') else 'b>=0.67d'
     if not si.close(got, sb, 1e-9):
-        acc.violation(f'C09/bending/wheel/{side}', 'sigma_b = Ft / (p_n b_eff Y_alpha)', case, {'got': got, 'ref': sb})
+        acc.violation(f'C09/bending/wheel/{side}' + sfx, 'sigma_b = Ft / (p_n b_eff Y_alpha)', case, {'got': got, 'ref': sb})
 
 
 # -- re-declared matings: the same gear computes against a sequence of mates ---------------------------------
@@ -343,6 +355,10 @@ def run_shard(shard, tier):
                                     for d in (None, [10.0, 'mm'], [2.0, 'cm']):
                                         check_wheel(acc, a, beta, z, wm, Tsign, m, b, d)
                                         acc.nstates += 1
+                                        if Tsign == 1 and z == 30:
+                                            for decoy in ('with', 'without'):
+                                                check_wheel(acc, a, beta, z, wm, Tsign, m, b, d, decoy=decoy)
+                                                acc.nstates += 1
         acc.sample({'kind': 'worm wheel', 'pressure_angles': ALPHAS, 'orientations': 2, 'face_width_vs_0.67d': 'both sides',
                     'data_subsets': 'module, face width (wheel) x reference diameter (worm)'})
     acc.cases += acc.nstates
@@ -358,7 +374,7 @@ def replay(case):
     elif case.get('kind') == 'remate':
         check_remating(acc, case['gk'], case['z'], [tuple(x) for x in case['seq']])
     elif case.get('kind') == 'wheel':
-        check_wheel(acc, case['alpha'], case['beta'], case['z'], case['wheel_is_master'], case['Tsign'], case['m'], case['b'], case['d'])
+        check_wheel(acc, case['alpha'], case['beta'], case['z'], case['wheel_is_master'], case['Tsign'], case['m'], case['b'], case['d'], decoy=case.get('decoy'))
     else:
         return run_shard(case['shard'], 'quick').violations
     return acc.violations
